@@ -1,4 +1,4 @@
-(* Receiver (C14), part 5: the theorems as stated from Initialize (any buffer size 2^k <= 16384 or the
+(* Receiver (C14), part 5: the theorems as stated from Initialize (any buffer size 2^k <= 32768 or the
    default, either transport). *)
 From GVL Require Import NList Wire Wrap.
 From GV_receiver Require Import Model Proofs Steps Hist Fate.
